@@ -26,8 +26,13 @@ Three Hypothesis parts over ``tornado.httputil.parse_body_arguments`` /
   ``HTTPInputError`` — any other exception is a violation.
 
 EITHER classes (statement silent; only "returns or HTTPInputError" is asserted): empty field name,
-empty filename, a quoted-string parameter containing ``"`` or ``\\`` (DESIGN: Tornado's cgi-derived
-splitter and clients disagree on escapes), non-empty preamble / epilogue other than one CRLF.
+empty filename, non-empty preamble / epilogue other than one CRLF, and exactly two structural classes
+of backslash-escaped quoted-string values that the cgi-derived splitter does not recover: a value
+ending in a backslash that is followed by another parameter, and a value of >= 2 characters that
+itself starts and ends with ``"``.  Every other name/filename containing ``"`` or ``\\`` — in particular
+exactly ``"`` (sent as ``name="\\""``), exactly ``\\``, ``a"b``, ``\\"`` — is asserted to round-trip exactly
+(label ``quoted_dquote_backslash_exact``; the boundary between the classes was established
+exhaustively over {" \\ a ; = SP} up to length 4 against the current tree).
 Run time is not asserted.
 
 Sensitivity (quick tier, seed 1, one mutant at a time on a scratch copy):
@@ -39,6 +44,9 @@ Sensitivity (quick tier, seed 1, one mutant at a time on a scratch copy):
   * ``eoh > config.max_part_header_size`` check removed .................. caught (C30.limit_header_over_accepted)
   * ``_parseparam``: quote counting removed (split on every ``;``) ....... caught (C30.multipart_exact)
   * ``parse_qs_bytes`` keep_blank_values dropped ......................... caught (C30.urlencoded_exact)
+  * ``_parse_header`` final quote-strip guard ``len(value) >= 2 and ...`` -> ``value and ...`` (a value
+    that is exactly one ``"`` becomes empty: field rejected as 'missing name', file turned into an
+    argument) ............................................................ caught (C30.multipart_exact[.rejected])
 
 Open findings on the current tree (known_findings.d/C30.json, write-ups in findings_inbox/):
   * F-C30-max-parts-off-by-one: a body with exactly ``max_parts`` parts is rejected (the empty text
@@ -108,6 +116,7 @@ def _name(min_size=1):
         st.text(alphabet=NAME_PLAIN + NAME_PUNCT + NAME_UNI + NAME_CTL, min_size=min_size, max_size=6),
         st.text(alphabet=NAME_PLAIN + NAME_PUNCT + NAME_QUOTE, min_size=min_size, max_size=6),
         st.sampled_from(["a", "a", "b", "file", "utf-8''x", "a*", "a*0*", "name", "filename"]),
+        st.sampled_from(['"', '"', "\\", '"\\', '\\"', "\\\\", 'a"', '"a', 'a"b', "a\\b", "\\a", '""', '"a"', "a\\"]),
     )
 
 
@@ -281,12 +290,31 @@ def encode_param(pname, s, style, o):
     return out
 
 
+def disposition_params(it):
+    """-> [(value, effective style, [encoded 'p=...' strings])] in the order they are sent."""
+    kind, name, o = it[0], it[1], it[-1]
+    style = effective_style(name, o["nstyle"])
+    out = [(name, style, encode_param("name", name, style, o))]
+    if kind == "file":
+        fstyle = effective_style(it[2], o["fstyle"])
+        f = (it[2], fstyle, encode_param("filename", it[2], fstyle, o))
+        out = [f] + out if o["fname_first"] else out + [f]
+    return out
+
+
+def quoted_string_unspecified(value, is_last):
+    """The two structural classes of quoted-string values that Tornado's cgi-derived splitter/unquoter
+    does not recover (statement/docs silent, DESIGN: EITHER): a value ending in a backslash that is
+    followed by another parameter (the closing `\\"` is taken for an escaped quote), and a value of
+    >= 2 characters that itself starts and ends with a double quote (stripped once more).  Every other
+    value made of quotes/backslashes — including exactly `"`, exactly `\\`, `a"b`, `\\"` ... — round-trips
+    (verified exhaustively over the alphabet {" \\ a ; = SP} up to length 4) and is asserted exactly."""
+    return (value.endswith("\\") and not is_last) or (len(value) >= 2 and value[0] == '"' and value[-1] == '"')
+
+
 def encode_part_headers(it):
     kind, name, o = it[0], it[1], it[-1]
-    params = encode_param("name", name, effective_style(name, o["nstyle"]), o)
-    if kind == "file":
-        fparams = encode_param("filename", it[2], effective_style(it[2], o["fstyle"]), o)
-        params = fparams + params if o["fname_first"] else params + fparams
+    params = [p for _v, _st, enc in disposition_params(it) for p in enc]
     hname = ["Content-Disposition", "content-disposition", "CONTENT-DISPOSITION"][o["hdr_case"]]
     disp = hname + ": form-data" + "".join(o["sep"] + p for p in params)
     lines = [EXTRA_HEADERS[i] for i in o["extra"]]
@@ -419,16 +447,19 @@ def classify(case):
             either.add("either_empty_name")
         if enc != "multipart":
             continue
-        strs = [(name, effective_style(name, o["nstyle"]))]
-        if kind == "file":
-            if it[2] == "":
-                either.add("either_empty_filename")
-            strs.append((it[2], effective_style(it[2], o["fstyle"])))
-        for s, style in strs:
-            if style in ("quoted", "ext_fallback"):
+        if kind == "file" and it[2] == "":
+            either.add("either_empty_filename")
+        dparams = disposition_params(it)
+        for idx, (s, style, _enc) in enumerate(dparams):
+            if style == "quoted":
                 labels.add("quoted_param")
                 if '"' in s or "\\" in s:
-                    either.add("either_quoted_dquote_backslash")
+                    if quoted_string_unspecified(s, idx == len(dparams) - 1):
+                        either.add("either_quoted_trailing_backslash_or_wrapped_in_quotes")
+                    else:
+                        labels.add("quoted_dquote_backslash_exact")
+                        if s in ('"', "\\"):
+                            labels.add("quoted_single_quote_or_backslash_char")
             if style != "quoted":
                 labels.add("rfc2231")
                 if style == "ext_cont":
